@@ -262,8 +262,15 @@ func (g *htmlGen) attrsFor(name string) []hAttr {
 		if r.Chance(1, 4) {
 			add("start", " 3 ")
 		}
+		if r.Chance(1, 3) {
+			add("type", r.Pick([]string{"A", "I", "a", "i", "1", " A "})) // the marker kind is case-sensitive
+		}
 		if r.Chance(1, 5) {
 			add("reversed", "")
+		}
+	case "li":
+		if r.Chance(1, 6) {
+			add("type", r.Pick([]string{"A", "I", "a", "disc"}))
 		}
 	case "option":
 		if r.Chance(1, 3) {
